@@ -248,6 +248,11 @@ def model_two_pass(cases):
 def run_go(cases):
     inp = '\n'.join(' '.join([hx(t)] + [hx(d) for d in docs]) for t, docs in cases) + '\n'
     lines, rc, err = run_harness(['filter'], inp, timeout=1200)
+    hang = [l for l in lines if l.startswith('HANG ')]
+    if hang:
+        hx_ = hang[0].split()[1]
+        err = 'HANG ' + (bytes.fromhex(hx_) if hx_ != '-' else b'').decode('utf-8', 'replace')
+        lines = [l for l in lines if not l.startswith('HANG ')]
     res = []
     for i in range(0, len(lines) - 5, 6):
         T, A, V, S, R, H = lines[i:i + 6]
